@@ -331,7 +331,9 @@ func RunScenarios(c *core.Ctx, scs []*AdScenario) *AdTotals {
 		}
 		var obs2 AdObs
 		d2 := RunAd(sc, &obs2)
-		if d2 == nil || d2.Detail != d.Detail {
+		// reproducible = the same abstract difference again (the order in which the
+		// sender walks its attributes, hence the text of an error, is unconstrained)
+		if d2 == nil || fmt.Sprint(d2.Sig) != fmt.Sprint(d.Sig) {
 			c.Broken("non-reproducible difference: %v vs %v", d, d2)
 			return
 		}
